@@ -210,7 +210,13 @@ def solve_scipy(
     constraints_violated = False
     max_violation = 0.0
 
-    if result.success and scipy_constraints:
+    # SLSQP's "positive directional derivative" exit is mapped to OPTIMAL below, so the
+    # point it returns must pass the same feasibility check as a successful result.
+    claims_optimal = bool(result.success) or (
+        "positive directional derivative" in str(result.message).lower()
+    )
+
+    if claims_optimal and scipy_constraints:
         for c in scipy_constraints:
             c_val = c["fun"](result.x)
             # Scaled tolerance based on constraint magnitude
